@@ -5,6 +5,7 @@ import (
 	"encoding/binary"
 	"fmt"
 	"io"
+	mrand "math/rand"
 	"os"
 	"path/filepath"
 	"strings"
@@ -182,6 +183,14 @@ func c10EvalAuth(c *Ctx, cs Case) {
 		fail("decoder panicked: "+pmsg, "")
 		return
 	}
+	// a success says that the 16 + dwLength bytes of the descriptor were there and were consumed: an input that ends
+	// before them can only be answered with an error
+	if err == nil {
+		if len(b) < 40 || 16+uint64(binary.LittleEndian.Uint32(b[16:20])) > uint64(len(b)) {
+			fail(fmt.Sprintf("ReadEFIVariableAuthencation2 returned a value and no error although the input (%d bytes) ends before the 16 + dwLength bytes of the descriptor", len(b)), "")
+			return
+		}
+	}
 	// oracle: on descriptors that are well-formed by the specification's layout (revision 0x0200, type 0x0EF1)
 	if strings.HasPrefix(spec, "some ") && strings.Contains(spec, " rev=512 ") && strings.Contains(spec, " type=3825 ") {
 		if err != nil {
@@ -245,6 +254,28 @@ func c10EvalWinCert(c *Ctx, cs Case) {
 	if panicked {
 		c.Fail(Failure{Kind: "property", What: "decoder panicked: " + pmsg, Case: cs, Go: goObs})
 		return
+	}
+	// oracle: a success is a statement about the input, whatever its revision or type: the decoder "consumes exactly
+	// the bytes its length field declares" and "recovers ... exactly" - so the header and the dwLength-8 body bytes
+	// must have been there, the value must hold them, and nothing else may have been taken from the source. An input
+	// that ends before them (cut inside the header or inside the body) has no such bytes: only an error is an answer,
+	// never a value - least of all a zero value - with a nil error.
+	if err == nil {
+		dw := -1
+		if len(b) >= 8 {
+			dw = int(binary.LittleEndian.Uint32(b))
+		}
+		switch {
+		case len(b) < 8:
+			c.Fail(Failure{Kind: "property", What: fmt.Sprintf("ReadWinCertificate returned a value and no error on %d bytes, less than the 8-byte WIN_CERTIFICATE header", len(b)), Case: cs, Go: clip(goObs), Spec: "an error"})
+			return
+		case dw < 8 || dw > len(b):
+			c.Fail(Failure{Kind: "property", What: fmt.Sprintf("ReadWinCertificate returned a value and no error although the input (%d bytes) ends before the %d bytes its dwLength declares: the declared bytes cannot have been consumed", len(b), dw), Case: cs, Go: clip(goObs), Spec: "an error"})
+			return
+		case int(w.Length) != dw || w.Revision != binary.LittleEndian.Uint16(b[4:]) || uint16(w.CertType) != binary.LittleEndian.Uint16(b[6:]) || !bytes.Equal(w.Certificate, b[8:dw]) || r.rest != len(b)-dw:
+			c.Fail(Failure{Kind: "property", What: "ReadWinCertificate succeeded but the value does not hold the header fields and the dwLength-8 body bytes of the input, or the source was not left exactly behind them", Case: cs, Go: clip(goObs), Spec: fmt.Sprintf("len=%d cert=%s rest=%d", dw, clip(hx(b[8:dw])), len(b)-dw)})
+			return
+		}
 	}
 	// oracle: dwLength-delimited
 	if len(b) >= 8 {
@@ -696,6 +727,36 @@ func c10Gen(c *Ctx) {
 		}
 		c10EvalWinCert(c, Case{"op": "wincert", "class": cls, "reader": readerKinds[i%len(readerKinds)], "bytes": hx(b.Bytes())})
 	}
+	// WIN_CERTIFICATEs that END EARLY, handed to ReadWinCertificate directly (a PE certificate table entry, a file
+	// that was cut): well-formed certificates of all three types cut at every position inside the header and
+	// inside the body (every one for short bodies, the first and last bytes and a sample for long ones), through
+	// every reader kind - among them the ones that end with a plain io.EOF and the one that hands out its last
+	// data together with io.EOF. The answer must be an error.
+	cutSub := &Ctx{Rng: mrand.New(mrand.NewSource(c.Seed*32452843 + 11 + int64(c.Shard)*1000003)), Thorough: c.Thorough}
+	for i := 0; i < c.N(40, 2000) && c.NFailures() < 8; i++ {
+		n := []int{1, 2, 7, 8, 9, 16, 17, 40, 100, 1 + cutSub.Rng.Intn(3000)}[i%10]
+		var b bytes.Buffer
+		binary.Write(&b, binary.LittleEndian, uint32(8+n))
+		binary.Write(&b, binary.LittleEndian, uint16(0x0200))
+		binary.Write(&b, binary.LittleEndian, uint16([]int{2, 0x0EF0, 0x0EF1}[i/10%3]))
+		b.Write(randBytes(cutSub, n))
+		full := b.Bytes()
+		cuts := map[int]bool{}
+		for cut := 0; cut < len(full); cut++ {
+			if cut <= 12 || cut >= len(full)-4 || n <= 40 || cutSub.Rng.Intn(n/8+1) == 0 {
+				cuts[cut] = true
+			}
+		}
+		for cut := 0; cut < len(full); cut++ {
+			if cuts[cut] {
+				cls := "cut-in-body"
+				if cut < 8 {
+					cls = "cut-in-header"
+				}
+				c10EvalWinCert(c, Case{"op": "wincert", "class": cls, "reader": readerKinds[(i+cut)%len(readerKinds)], "bytes": hx(full[:cut])})
+			}
+		}
+	}
 	for i, n := range []int{65527, 65528, 65529, 65535, 65536} {
 		var b bytes.Buffer
 		binary.Write(&b, binary.LittleEndian, uint32(8+n))
@@ -708,7 +769,7 @@ func c10Gen(c *Ctx) {
 
 func init() {
 	register("C10", &PropDef{
-		Rule:   "descriptors with any timestamp, certificate-data length in {0,1,7,16,100,1500,random<=64KiB, and 65511..65536 where dwLength crosses 2^16}, PKCS7 or random type GUID, followed by payloads of 0..300 bytes; variants with a wrong revision, a declared length beyond the data, and a declared length shorter than the data (surplus is payload); the .auth fixtures of the repository; plain WIN_CERTIFICATEs of all three certificate types (up to 64 KiB). Each input is handed to the decoder through a bytes.Reader, a bytes.Buffer, a one-byte-at-a-time reader, a reader that returns its last data together with io.EOF, or a half-count reader, over a private copy, and the source (buffer drained, reset and reused; backing array overwritten) is destroyed before the decoded value is inspected and re-encoded. Sequences on ONE EFIVariableAuthentication2 value (2..6 steps): it is built by NewEFIVariableAuthentication2 or decoded, then again decoded into as the receiver of Unmarshal (so a second, third descriptor - with empty or non-empty certificate data, dwLength 24..24+1500 - lands in an object that held another one), replaced by the result of ReadEFIVariableAuthencation2, given a new AuthInfo by ReadWinCertificateUEFIGUID, and edited (Time, type GUID, certificate data with dwLength adjusted); after every step the object must hold exactly the fields these steps define, must encode (Marshal and WriteEFIVariableAuthencation2, also compared with the encoder model and Spec.encAuth through the driver op auth.write) to the 16+dwLength bytes of their declared-length layout, and decoding that encoding in front of a payload must return the fields and leave the payload; failing sequences are shrunk by deleting steps. DESTINATIONS THAT ALREADY HOLD CONTENT: every successfully decoded descriptor / WIN_CERTIFICATE and every value of a sequence step is also encoded (Marshal, WriteEFIVariableAuthencation2, WriteWinCertificateUEFIGUID, WriteWinCertificate) into three buffers that are not empty - the four attribute bytes of an efivarfs file, 1/15/16/17/40/300 bytes, a whole earlier encoding of the same value (a second descriptor appended behind the first), each also with a part of the content already read; oracle: the unread content stays as it is and exactly the bytes the same call writes into an empty destination follow it. Inputs on which the unrepaired decoder would terminate the process (body shorter than a GUID, dwLength < 8) belong to C13/C14 and are generated there. Non-trivial: longer than the fixed header; distinct = distinct byte strings.",
+		Rule:   "descriptors with any timestamp, certificate-data length in {0,1,7,16,100,1500,random<=64KiB, and 65511..65536 where dwLength crosses 2^16}, PKCS7 or random type GUID, followed by payloads of 0..300 bytes; variants with a wrong revision, a declared length beyond the data, and a declared length shorter than the data (surplus is payload); the .auth fixtures of the repository; plain WIN_CERTIFICATEs of all three certificate types (up to 64 KiB). INPUTS THAT END EARLY: 40 well-formed WIN_CERTIFICATEs (all three types, bodies of 1..3000 bytes) cut at every position inside the 8-byte header and inside the body (every position for bodies up to 40 bytes, the first 12 / last 4 positions and a sample otherwise) are handed to ReadWinCertificate DIRECTLY through every reader kind (sources ending with a plain io.EOF, and one handing out its last data together with io.EOF); oracle, independent of the model: ReadWinCertificate (any revision, any type) and ReadEFIVariableAuthencation2 may return a nil error only when the header and the bytes its length field declares were present, the value then holds exactly these fields and body bytes and the source is left exactly behind them - an input cut short is answered with an error, never with a (zero) value and a nil error. Each input is handed to the decoder through a bytes.Reader, a bytes.Buffer, a one-byte-at-a-time reader, a reader that returns its last data together with io.EOF, or a half-count reader, over a private copy, and the source (buffer drained, reset and reused; backing array overwritten) is destroyed before the decoded value is inspected and re-encoded. Sequences on ONE EFIVariableAuthentication2 value (2..6 steps): it is built by NewEFIVariableAuthentication2 or decoded, then again decoded into as the receiver of Unmarshal (so a second, third descriptor - with empty or non-empty certificate data, dwLength 24..24+1500 - lands in an object that held another one), replaced by the result of ReadEFIVariableAuthencation2, given a new AuthInfo by ReadWinCertificateUEFIGUID, and edited (Time, type GUID, certificate data with dwLength adjusted); after every step the object must hold exactly the fields these steps define, must encode (Marshal and WriteEFIVariableAuthencation2, also compared with the encoder model and Spec.encAuth through the driver op auth.write) to the 16+dwLength bytes of their declared-length layout, and decoding that encoding in front of a payload must return the fields and leave the payload; failing sequences are shrunk by deleting steps. DESTINATIONS THAT ALREADY HOLD CONTENT: every successfully decoded descriptor / WIN_CERTIFICATE and every value of a sequence step is also encoded (Marshal, WriteEFIVariableAuthencation2, WriteWinCertificateUEFIGUID, WriteWinCertificate) into three buffers that are not empty - the four attribute bytes of an efivarfs file, 1/15/16/17/40/300 bytes, a whole earlier encoding of the same value (a second descriptor appended behind the first), each also with a part of the content already read; oracle: the unread content stays as it is and exactly the bytes the same call writes into an empty destination follow it. Inputs on which the unrepaired decoder would terminate the process (body shorter than a GUID, dwLength < 8) belong to C13/C14 and are generated there. Non-trivial: longer than the fixed header; distinct = distinct byte strings.",
 		Assume: []string{},
 		Eval:   c10Eval, Gen: c10Gen,
 	})
